@@ -4,7 +4,10 @@ FrameDecoder.tla is explored exhaustively over a set of materialised frames and 
 every strategy, collect, read, collect_to_writer with scripted sinks, decode_from_to with offers/targets, streaming
 read); every transition of the graph is replayed on the real FrameDecoder / StreamingDecoder (twice: slice source and
 fragmenting reader; plain and streaming front end) and every return value and accessor is compared after every call.
-Random legal schedules over real frames (decodecorpus, libzstd, ruzstd output) extend this to real sizes.
+Random legal schedules over real frames (decodecorpus, libzstd, ruzstd output) extend this to real sizes: with the original
+bytes as oracle, and -- recorded call by call with the decoder's observable state -- validated by TLC against
+Trace_FrameDecoder.tla (every call must be the specified action with the specified results; Order, Retain, ConsumedOK,
+NoFinishOnPrefix, FinishedContent hold in every state; reused decoders, truncated sources, all three front ends).
 """
 from ..common import *
 from .. import fdlib
@@ -22,7 +25,10 @@ def check(ctx):
                       Scripts=fdlib.SCRIPTS_T, Targets=[0, 1, 1024, 5000], SReadSizes=[0, 1, 1000, 1025, 5000])
     fdlib.run_config(ctx, "MC_FD_schedules", "quick", params, what="all schedules up to MaxSteps calls per frame, untruncated sources",
                      select=(lambda f: f["valid"]) if q else None)
-    fdlib.random_schedules(ctx, 25 if q else 250)
+    idx = fdlib.corpus(ctx)
+    fdlib.random_schedules(ctx, 25 if q else 250, idx)
+    # the same kind of schedules recorded call by call and validated against the specification (properties as invariants)
+    fdlib.trace_real_frames(ctx, 4 if q else 40, idx, salt=6)
     ctx.assumptions += ["frame contents are sampled; the schedule space is exhaustive up to MaxSteps calls per frame over the listed menus",
                         "the frame serializer is trusted only where libzstd decodes its frames to the same content (checked at build time)"]
     return ctx.finish("model_checking")
